@@ -54,6 +54,7 @@ def _case(draw, wide=False):
         st.tuples(st.just('upd'), t, run, a).map(list),
         st.tuples(st.just('upd'), t, run, a).map(list),
         st.tuples(st.just('reg'), a, st.integers(0, 1)).map(list),
+        st.tuples(st.just('regfault'), a, st.integers(0, 1)).map(list),
         st.tuples(st.just('bump'), a, st.sampled_from(['a', 's', 'v']),
                   st.integers(0, 1), st.integers(0, 2), st.integers(0, 2),
                   st.sampled_from([0, 1, 1, 4, 9])).map(list),
@@ -139,6 +140,13 @@ def execute(case):
                 s.update(op[1], op[2], op[3], [where, op[2]])
             elif kind == 'reg':
                 s.register(op[1], bool(op[2]))
+            elif kind == 'regfault':
+                # new versions first, so that the registration has to write
+                bump(s, ['bump', op[1], 'a', 0, 0, 2])
+                bump(s, ['bump', op[1], 'v', 0, 0, 2])
+                if s.register_with_write_fault(op[1], bool(op[2])):
+                    out.nontrivial = True
+                    out.label('catalogue-write-failed-once')
             elif kind == 'bump':
                 for _ in range(1 + op[6]):
                     bump(s, op[:6])
